@@ -235,6 +235,29 @@ def corr_c1c2(ctx: Ctx, drv):
         ctx.corr_case("_apply_langevin_thermostat", {"names": names, "dt": dt, "damp": damp, "temp": temp}, "ulp<=2" if ok else out[:3], want[:3].tolist(), ok)
 
 
+def corr_setdof(ctx: Ctx, drv):
+    """degrees-of-freedom accounting of the three engines vs the model"""
+    import torch
+
+    import seqm.MolecularDynamics as MD
+    from . import c13
+
+    old = MD.esdriver
+    MD.esdriver = mdh.StubEngine
+    try:
+        for eng, kind, damp in (("basic", 0, None), ("langevin", 1, 20.0), ("xl", 2, 15.0), ("xl", 3, None)):
+            for cons in (0.0, 3.0, 6.0):
+                md, mol, s = c13._setup(["ch4", "h2o"], 300.0, engine=eng, damp=damp)
+                md.set_dof(mol, cons)
+                want = md.n_dof.numpy() if torch.is_tensor(md.n_dof) else np.asarray(md.n_dof)
+                for m in range(len(want)):
+                    out = drv.ask("setdof", kind, f2b(float(mol.num_atoms[m])), f2b(cons))
+                    ok = len(out) == 1 and out[0] != "bad-op" and b2f(out[0]) == float(want[m])
+                    ctx.corr_case("set_dof", {"engine": eng, "damp": damp, "constraints": cons, "mol": m}, out, float(want[m]), ok)
+    finally:
+        MD.esdriver = old
+
+
 def gen_cases(ctx: Ctx):
     rng = ctx.rng
     cases = []
@@ -263,6 +286,7 @@ def run(ctx: Ctx):
     try:
         try:
             corr_c1c2(ctx, drv)
+            corr_setdof(ctx, drv)
         except Exception:
             import traceback
             ctx.obligation("correspondence adapters C12 ran", False, traceback.format_exc()[-1500:], kind="harness")
